@@ -432,6 +432,7 @@ theorem skipping_small_is_wrong :
 
 /-! ### Guard over the regenerated facts -/
 theorem facts_guard :
-    Gen.Facts.c16ReadErrEndsConn = some true ∧ Gen.Facts.c16DoqStreamDeadlineReadOnly = some true := by decide
+    Gen.Facts.c16ReadErrEndsConn = some true ∧ Gen.Facts.c16DoqStreamDeadlineReadOnly = some true ∧
+    Gen.Facts.c16ClientReadErrEndsConn = some true := by decide
 
 end Props.C16
